@@ -1,15 +1,170 @@
-//! Property-specific scenario drivers: extra action kinds, swarm adjustments.
+//! Property-specific scenario drivers: swarm adjustments per property, extra action kinds.
 
 use crate::prng::Prng;
+use crate::seams::StorageKind;
 use crate::types::*;
 use crate::world::*;
 
-pub fn adjust(_cfg: &mut SwarmCfg, _tier: &str, _r: &mut Prng) {}
+fn sv(v: &[&str]) -> Vec<String> {
+    v.iter().map(|s| s.to_string()).collect()
+}
 
-pub fn extra_kinds(_w: &World, _kinds: &mut Vec<(&'static str, u32)>) {}
+fn setw(cfg: &mut SwarmCfg, k: &str, w: u32) {
+    if let Some(e) = cfg.weights.iter_mut().find(|(n, _)| n == k) {
+        e.1 = w;
+    } else {
+        cfg.weights.push((k.to_string(), w));
+    }
+}
 
-pub fn extra_action(_w: &mut World, _kind: &str) -> Option<Action> {
-    None
+pub fn adjust(cfg: &mut SwarmCfg, tier: &str, r: &mut Prng) {
+    let thorough = tier == "thorough";
+    let _ = thorough;
+    match cfg.property.as_str() {
+        "C03" => {
+            cfg.oracles = sv(&["agreement", "modified-rejected"]);
+            cfg.faults = sv(&["N-FLIP", "N-TRUNC", "N-SPLICE", "N-DUP", "N-REORD", "N-RACE", "N-STALE"]);
+            setw(cfg, "corrupt", 40);
+            setw(cfg, "byz", 8);
+            cfg.faults.push("B-MOD".into());
+            setw(cfg, "stale_commit", 3);
+            setw(cfg, "send_app", 14);
+            setw(cfg, "propose", 10);
+            cfg.n_parties = cfg.n_parties.min(6);
+        }
+        "C04" => {
+            cfg.oracles = sv(&["agreement", "state-unchanged", "modified-rejected"]);
+            cfg.faults = sv(&[
+                "N-FLIP", "N-TRUNC", "N-SPLICE", "N-DUP", "N-REORD", "N-RACE", "N-STALE", "missing-proposal",
+            ]);
+            setw(cfg, "corrupt", 30);
+            setw(cfg, "byz", 8);
+            cfg.faults.push("B-MOD".into());
+            setw(cfg, "stale_commit", 6);
+            setw(cfg, "send_app", 14);
+            setw(cfg, "propose", 10);
+            setw(cfg, "crash", 0);
+            cfg.storage = *r.pick(&[StorageKind::Mem, StorageKind::Mem, StorageKind::Sql]);
+            cfg.n_parties = cfg.n_parties.min(6);
+        }
+        _ => {}
+    }
+}
+
+pub fn extra_kinds(w: &World, kinds: &mut Vec<(&'static str, u32)>) {
+    let g = 0;
+    if w.cfg.weight("corrupt") > 0 && !w.live_members(g).is_empty() && !w.msgs.is_empty() {
+        kinds.push(("corrupt", w.cfg.weight("corrupt")));
+    }
+    if w.cfg.weight("byz") > 0 && w.live_members(g).len() >= 2 {
+        kinds.push(("byz", w.cfg.weight("byz")));
+    }
+}
+
+fn random_mutation(w: &mut World, target: u64) -> Mutation {
+    let len = w.msgs[&target].bytes.len().max(1) as u64;
+    let kind = w.msgs[&target].kind.clone();
+    let mut choices = vec![];
+    if w.cfg.fault("N-FLIP") {
+        choices.extend_from_slice(&[0, 0, 0, 0]);
+    }
+    if w.cfg.fault("N-TRUNC") {
+        choices.push(1);
+    }
+    if w.cfg.fault("N-SPLICE") {
+        choices.push(2);
+    }
+    if choices.is_empty() {
+        choices.push(0);
+    }
+    let c = *w.prng.pick(&choices);
+    match c {
+        0 => {
+            // bias towards the header (first 64 bytes) and the tail (tags, signatures)
+            let pos = match w.prng.below(4) {
+                0 => w.prng.below(len.min(64)),
+                1 => len - 1 - w.prng.below(len.min(80)),
+                _ => w.prng.below(len),
+            };
+            Mutation::Flip {
+                pos: pos as u32,
+                bit: w.prng.below(8) as u8,
+            }
+        }
+        1 => Mutation::Trunc {
+            len: w.prng.below(len) as u32,
+        },
+        _ => {
+            let same: Vec<u64> = w
+                .msgs
+                .iter()
+                .filter(|(id, m)| **id != target && m.kind == kind)
+                .map(|(id, _)| *id)
+                .collect();
+            if same.is_empty() {
+                Mutation::Flip {
+                    pos: w.prng.below(len) as u32,
+                    bit: 0,
+                }
+            } else {
+                let other = *w.prng.pick(&same);
+                Mutation::Splice {
+                    other,
+                    at: w.prng.below(len) as u32,
+                }
+            }
+        }
+    }
+}
+
+pub fn extra_action(w: &mut World, kind: &str) -> Option<Action> {
+    let g = 0usize;
+    match kind {
+        "corrupt" => {
+            let live = w.live_members(g);
+            let p = *w.prng.pick(&live);
+            let epoch = w.epoch_of(p, g)?;
+            // prefer messages whose genuine copy is still to come for p
+            let mut pool: Vec<u64> = vec![];
+            if w.prng.chance(3, 5) {
+                pool.extend(w.parties[p].mems[g].inbox.iter().copied());
+                if let Some(c) = w.groups[g].log.get(epoch as usize) {
+                    pool.push(*c);
+                }
+                if let Some(c) = w.groups[g].candidates.get(&epoch) {
+                    pool.extend(c.iter().copied());
+                }
+            }
+            if pool.is_empty() {
+                let all: Vec<u64> = w.msgs.keys().copied().collect();
+                let n = all.len();
+                let lo = n.saturating_sub(12);
+                pool.extend_from_slice(&all[lo..]);
+            }
+            let target = *w.prng.pick(&pool);
+            let m = random_mutation(w, target);
+            Some(Action::Corrupt {
+                p,
+                g,
+                msg: target,
+                m,
+            })
+        }
+        "byz" => {
+            let live = w.live_members(g);
+            let p = *w.prng.pick(&live);
+            // 22 (leaf capabilities without the group's cipher suite) is not used for verdicts: RFC 9420 does
+            // not clearly require receivers to reject it and mls-rs accepts it
+            let codes: [u64; 16] = [1, 2, 3, 4, 5, 6, 7, 8, 9, 20, 21, 23, 23, 30, 31, 1];
+            Some(Action::Special {
+                kind: "byz".into(),
+                a: p as u64,
+                b: *w.prng.pick(&codes),
+                c: w.prng.below(8),
+            })
+        }
+        _ => None,
+    }
 }
 
 pub fn adjust_commit(_w: &mut World, _p: usize, _g: usize, _spec: &mut CommitSpec) {}
@@ -30,6 +185,24 @@ pub fn setup(w: &mut World) -> VResult<()> {
 }
 
 /// run-level checks at the end of a run (after the heal phase)
-pub fn finish(_w: &mut World) -> VResult<()> {
+pub fn finish(w: &mut World) -> VResult<()> {
+    // bounded liveness: every live member sits in the latest epoch
+    for g in 0..w.groups.len() {
+        let latest = w.groups[g].log.len() as u64;
+        if w.groups[g].reinit_at.is_some() {
+            continue;
+        }
+        for p in w.live_members(g) {
+            let e = w.epoch_of(p, g).unwrap_or(0);
+            if e != latest {
+                return Err(Violation::new(
+                    &w.cfg.property,
+                    "bounded-liveness",
+                    "member-behind-after-heal".into(),
+                    format!("after the heal phase P{p} is at epoch {e} of g{g}, the group is at {latest}"),
+                ));
+            }
+        }
+    }
     Ok(())
 }
